@@ -1591,13 +1591,13 @@ func (b *Base) Return(x *Exec, ret *ast.ReturnStmt, s St) []St {
 func (b *Base) return1(x *Exec, ret *ast.ReturnStmt, s St) []St {
 	// return f(args): the call is interpreted like `r0, r1 = f(args); return r0, r1`, so that the
 	// hooks (and the err/nil fork) see calls in return position too
-	if ret != nil && len(ret.Results) == 1 && b.H.Call != nil && x.RetCall == nil {
+	if ret != nil && len(ret.Results) == 1 && (b.H.Call != nil || b.AutoInline != nil || len(b.Inline) > 0) && x.RetCall == nil {
 		if call, ok := ast.Unparen(ret.Results[0]).(*ast.CallExpr); ok {
 			rts := resultTerms(x.Fn)
 			if tv, ok := x.Fn.Info.Types[call.Fun]; ok && !tv.IsType() && len(rts) >= 1 {
 				if sig, ok := x.Fn.Info.TypeOf(call.Fun).Underlying().(*types.Signature); ok && sig.Results().Len() == len(rts) {
 					x.RetCall = rts
-					outs, handled := b.H.Call(x, call, nil, s)
+					outs, handled := b.call(x, call, nil, s)
 					x.RetCall = nil
 					if handled {
 						var res []St
@@ -1760,6 +1760,20 @@ func (b *Base) InlineCall(x *Exec, call *ast.CallExpr, fi *FuncInfo, lhs []ast.E
 				if !ok {
 					continue
 				}
+				st = b.Invalidate(st, t)
+				if vals[i].n != "" {
+					st = st.Set("n:"+t, vals[i].n)
+				}
+				if vals[i].b != "" {
+					st = st.Set("b:"+t, vals[i].b)
+				}
+				if vals[i].c != "" {
+					st = st.Set("c:"+t, vals[i].c)
+				}
+			}
+		} else if len(lhs) == 0 && x.RetCall != nil && len(x.RetCall) == len(rts) {
+			// `return f(...)`: the callee's results are the caller's results
+			for i, t := range x.RetCall {
 				st = b.Invalidate(st, t)
 				if vals[i].n != "" {
 					st = st.Set("n:"+t, vals[i].n)
